@@ -1273,6 +1273,10 @@ func (g *Gen) addObligation(o *Obligation) {
 	if o.Expect == "" {
 		o.Expect = "unsat"
 	}
+	if o.Kind == "nopanic" && g.panicPre != "" {
+		// the function under contract declares `panics-unless P`: panic-freedom is proved for entries that satisfy P
+		o.Goal = sImp(g.panicPre, o.Goal)
+	}
 	g.vc.obls = append(g.vc.obls, o)
 }
 
